@@ -299,6 +299,25 @@ func (s *Session) staticCall(fr *Frame, fn *ssa.Function, bindings []Val, args [
 		}
 		return s.pureCall(fn, args, st)
 	}
+	if name == "encoding/json.Unmarshal" || name == "(*encoding/json.Decoder).Decode" {
+		// decoding writes into the object its last argument points to: that object gets arbitrary content (the
+		// package is otherwise treated as side-effect free, which is wrong for exactly these two functions)
+		tgt := args[len(args)-1]
+		if org, ok := s.ifaceOrigin[tgt.T0().S]; ok && isPointer(org.typ) {
+			loc := s.toLoc(org.val)
+			nv := s.opaqueVal(loc.Typ, "decoded")
+			s.assume(Imp(st.Reach, And(s.rangeFacts(nv), s.refFacts(st, nv))))
+			s.store(st, loc, nv)
+			nt := s.fresh("top", SInt)
+			s.assume(Ge(nt, st.Top))
+			st.Top = nt
+			s.note("%s: the decoded object gets arbitrary content", name)
+		} else {
+			s.note("%s into a target of unknown shape: heap havocked", name)
+			s.havocAll(st)
+		}
+		return s.freshResult(st, res, fn.Name())
+	}
 	if hasPrefixAny(pkg, purePkgs) || opaque {
 		return s.pureCall(fn, args, st)
 	}
